@@ -41,12 +41,12 @@ impl Property for C01 {
             dp.max_base = 25;
             dp.max_compound = 6;
         }
-        (world(dp, CfgParams::full()), vec(pieces(maxp), 1..=4))
+        (world(dp, CfgParams::full()), vec(pieces_long(maxp), 1..=4))
             .prop_map(|((dic, cfg), texts)| Case { dic, cfg, texts })
             .boxed()
     }
     fn cases_per_shard(&self, tier: Tier) -> u32 {
-        tier.pick(8000, 150000)
+        tier.pick(5000, 150000)
     }
     fn sample(&self, case: &Case) -> Value {
         let keys = all_keys(&case.dic);
